@@ -445,6 +445,8 @@ class Runner(object):
             self._teardown()
             self._startup_after_crash()
             return self._finish()
+        if self.down and op["op"] != "restart":
+            return self._finish()
         try:
             self._do(op)
         except Crash:
@@ -463,7 +465,12 @@ class Runner(object):
     def _startup_after_crash(self):
         # the model keeps `rebooted` until the history's next `restart t`; start on the
         # files right away so that start-up problems surface at the crash point
-        self._startup(int(round(self.now * TICKS)))
+        try:
+            self._startup(int(round(self.now * TICKS)))
+        except Exception as e:
+            # the real start-up path refused the files the crash left (integrity check, version ...)
+            self.event("!startup-failed %s" % type(e).__name__)
+            self.down = True
         self.server_rebooted_hint = True
 
     def _finish(self):
@@ -558,7 +565,11 @@ class Runner(object):
             self.fault_next = False
         elif k == "restart":
             self._teardown()
-            self._startup(op["t"])
+            try:
+                self._startup(op["t"])
+            except Exception as e:
+                self.event("!startup-failed %s" % type(e).__name__)
+                self.down = True
         elif k == "softrestart":
             # the same instant for a server that is NOT restarted: every client drops
             for c in list(self.conns):
